@@ -672,9 +672,13 @@ impl<'a> BenchContext<'a> {
         };
 
         if !is_test {
-            self.samples
+            // Reserving up front is only an optimization. A huge `sample_count`
+            // that `max_time` is expected to cut short must not abort the
+            // process when that much memory cannot be allocated.
+            let _ = self
+                .samples
                 .time_samples
-                .reserve(self.options.sample_count.unwrap_or(1) as usize);
+                .try_reserve(self.options.sample_count.unwrap_or(1) as usize);
         }
 
         let skip_ext_time = self.options.skip_ext_time.unwrap_or_default();
